@@ -81,6 +81,12 @@ def run(ctx):
         if f.get("match", {}).get("kind") == "trailing-tag-without-parameter":
             return v["what"].startswith("printed text is rejected") and trailing_tag_without_param(bytes.fromhex(v["input_hex"]), table)
         return False
+    import aliasing
+    r_ = rng("c04-held")
+    held_src = r_.sample(acc, min(len(acc), 80 if ctx.tier == "quick" else 800))
+    others = [b'require "fileinto"; fileinto ["a"];', b'keep; stop "x";', b'require ["imap4flags", "vacation"]; addflag ["x", "y"]; vacation :addresses ["a@b.c"] "gone";', b"if true { foo"]
+    for v in aliasing.held_results(held_src, others):
+        viol.append(v)
     fresh, known = split_known("C04", viol, matcher)
     res = std_result(rec, info, fresh, known, RULE, {"ser": {"accepted_scripts": len(acc)}}, diffs=diffs)
     res["distinct_nontrivial"] = sum(1 for t in acc if len(t.split()) >= 3)
